@@ -197,3 +197,24 @@ func SiteKey(site string) string {
 	}
 	return "dep:" + pkg
 }
+
+// QuietAlloc measures the bytes allocated by f in a process that may allocate elsewhere at the same
+// time (a native fuzz worker): when the first measurement is above limit it is repeated and the
+// smallest value counts, since foreign allocations come and go and f's own are there every time.
+func QuietAlloc(limit uint64, f func()) uint64 {
+	var best uint64
+	for i := 0; i < 4; i++ {
+		var before, after runtime.MemStats
+		runtime.ReadMemStats(&before)
+		f()
+		runtime.ReadMemStats(&after)
+		a := after.TotalAlloc - before.TotalAlloc
+		if i == 0 || a < best {
+			best = a
+		}
+		if best <= limit {
+			break
+		}
+	}
+	return best
+}
